@@ -155,15 +155,14 @@ impl OperationControl for Repeat {
             )))
         } else {
             // reluctant (non-greedy) repeat.
-            Box::new(ForceProgressIterator::new(Box::new(
-                ReluctantRepeatIterator::new(
-                    matcher,
-                    self.operation.as_ref(),
-                    position,
-                    self.min,
-                    self.max,
-                ),
-            )))
+            Box::new(ReluctantRepeatIterator::new(
+                matcher,
+                self.operation.as_ref(),
+                position,
+                self.min,
+                self.max,
+                capturing,
+            ))
         }
     }
 
@@ -285,15 +284,31 @@ impl Iterator for GreedyRepeatIterator<'_> {
     }
 }
 
+/// Iterates over the end positions of all ways to repeat an operation
+/// reluctantly between `min` and `max` times, as a depth-first walk of the
+/// tree whose nodes at depth k are the positions reachable after k
+/// iterations: a node is offered before its descendants (fewer iterations
+/// first), and when the caller comes back for more, another iteration is
+/// attempted and, when that fails, earlier iterations are backtracked into.
+///
+/// An iteration that consumes nothing is only ever used to make up the
+/// minimum number of iterations (once: every further required iteration can
+/// repeat it); beyond that it cannot lead anywhere new and is skipped, which
+/// is what guarantees termination for terms that can match the empty string.
 struct ReluctantRepeatIterator<'a> {
-    matcher: &'a crate::re_matcher::ReMatcher<'a>,
+    matcher: &'a ReMatcher<'a>,
     operation: &'a Operation,
     min: usize,
     max: usize,
-    // one iterator per iteration of the repeated operation entered so far
+    // one iterator per iteration entered on the current path
     iterators: Vec<Box<dyn Iterator<Item = usize> + 'a>>,
-    // positions[k] is the position reached after k iterations
+    // positions[k]: the position reached after k iterations
     positions: Vec<usize>,
+    // empties[k]: one of the first k iterations consumed nothing
+    empties: Vec<bool>,
+    // states[k]: what was captured after k iterations (when the term captures groups)
+    states: Vec<Snapshot>,
+    capturing: bool,
     started: bool,
 }
 
@@ -304,7 +319,13 @@ impl<'a> ReluctantRepeatIterator<'a> {
         position: usize,
         min: usize,
         max: usize,
+        capturing: bool,
     ) -> Self {
+        let states = if capturing {
+            vec![matcher.snapshot()]
+        } else {
+            Vec::new()
+        };
         Self {
             matcher,
             operation,
@@ -312,56 +333,93 @@ impl<'a> ReluctantRepeatIterator<'a> {
             max,
             iterators: Vec::new(),
             positions: vec![position],
+            empties: vec![false],
+            states,
+            capturing,
             started: false,
         }
+    }
+
+    // may the current node be offered as a result?
+    fn complete(&self) -> bool {
+        let depth = self.iterators.len();
+        depth >= self.min || self.empties[depth]
+    }
+
+    // the next result of the innermost iteration that is worth following
+    fn next_of_top(&mut self) -> bool {
+        let depth = self.iterators.len();
+        let start = self.positions[depth - 1];
+        let had_empty = self.empties[depth - 1];
+        while let Some(p) = self.iterators.last_mut().unwrap().next() {
+            let empty = p == start;
+            if empty && (depth > self.min || had_empty) {
+                continue;
+            }
+            self.positions.push(p);
+            self.empties.push(had_empty || empty);
+            if self.capturing {
+                self.states.push(self.matcher.snapshot());
+            }
+            return true;
+        }
+        self.iterators.pop();
+        false
+    }
+
+    // enter one more iteration from the current node
+    fn push_child(&mut self) -> bool {
+        if self.iterators.len() >= self.max {
+            return false;
+        }
+        if self.capturing {
+            self.matcher.restore(self.states.last().unwrap());
+        }
+        let position = *self.positions.last().unwrap();
+        self.iterators
+            .push(self.operation.matches_iter(self.matcher, position));
+        self.next_of_top()
+    }
+
+    // replace the current node by the next alternative of its iteration;
+    // when there is none the current node becomes its parent
+    fn next_sibling(&mut self) -> bool {
+        self.positions.pop();
+        self.empties.pop();
+        if self.capturing {
+            self.states.pop();
+        }
+        self.next_of_top()
+    }
+
+    fn current(&self) -> Option<usize> {
+        // the groups captured on abandoned paths are forgotten
+        if self.capturing {
+            self.matcher.restore(self.states.last().unwrap());
+        }
+        self.positions.last().copied()
     }
 }
 
 impl Iterator for ReluctantRepeatIterator<'_> {
     type Item = usize;
 
-    // Depth-first, fewest iterations first: a position is offered as soon as
-    // the minimum number of iterations has been reached; only when the caller
-    // comes back for more is another iteration attempted, and when that fails
-    // the earlier iterations are backtracked into.
     fn next(&mut self) -> Option<Self::Item> {
-        if !self.started {
-            self.started = true;
-            if self.min == 0 {
-                return self.positions.last().copied();
-            }
-        }
         loop {
-            // try one more iteration from the position reached so far
-            let count = self.iterators.len();
-            if count < self.max {
-                let position = *self.positions.last().unwrap();
-                self.iterators
-                    .push(self.operation.matches_iter(self.matcher, position));
-            } else if self.iterators.is_empty() {
-                return None;
+            if !self.started {
+                self.started = true;
+            } else if !self.push_child() {
+                loop {
+                    if self.iterators.is_empty() {
+                        return None;
+                    }
+                    if self.next_sibling() {
+                        break;
+                    }
+                }
             }
-            // advance the innermost iteration, backtracking into earlier ones when it is exhausted
-            loop {
-                let depth = self.iterators.len();
-                if depth == 0 {
-                    return None;
-                }
-                self.positions.truncate(depth);
-                let start = self.positions[depth - 1];
-                if let Some(p) = self.iterators.last_mut().unwrap().next() {
-                    if p == start && depth > self.min {
-                        // an iteration that consumed nothing cannot lead anywhere new
-                        continue;
-                    }
-                    self.positions.push(p);
-                    if depth >= self.min {
-                        return Some(p);
-                    }
-                    break;
-                } else {
-                    self.iterators.pop();
-                }
+            if self.complete() {
+                return self.current();
             }
         }
     }
